@@ -63,7 +63,7 @@ func (c12) RequiredBuckets(tier string) []string {
 		"safety:kind|range", "safety:kind|prange", "safety:kind|point", "safety:kind|site", "safety:kind|join", "safety:kind|order", "safety:kind|complement",
 		"corpus:phiX174",
 	}
-	return out
+	return append(out, "cli:repair")
 }
 
 func c12Lbl(s string) gts.Props { return gts.Props{{"label", s}} }
@@ -1564,4 +1564,5 @@ func (m c12) Run(c *fw.Ctx) {
 			m.safetyCase(c, st)
 		}
 	}
+	cliRepair(c)
 }
